@@ -54,6 +54,14 @@ def c05_matrix(ctx):
         dict(dev="bar", k=4, steps=8, adaptive=False, dt=0.011, probes=2, current=1.0, field=0.1, exact_times=True, skip=7),
         dict(dev="film", k=2, steps=9, adaptive=False, dt=0.025, probes=0, current=0.0, field=0.2, exact_times=True),
         dict(dev="film", k=5, steps=11, adaptive=False, dt=0.02, probes=0, current=0.0, field=0.2, exact_times=True),
+        # probe points listed in an order that is not the order of their mesh sites
+        dict(dev="bar", k=2, steps=7, adaptive=False, dt=2.0 ** -6, probes=2, current=2.0, field=0.2, probe_order="reversed"),
+        dict(dev="bar", k=3, steps=8, adaptive=True, dt=2.0 ** -6, dt_max=0.1, probes=3, current=3.0, field=0.3, probe_order="rotated"),
+        # fixed step and a save interval at least as long as the run (the default save_every=100 on a short run), with a
+        # solve time that is not a whole number of steps: frames at 0 and at the final step only
+        dict(dev="film", k=100, steps=6, adaptive=False, dt=0.01, probes=0, current=0.0, field=0.2),
+        dict(dev="bar", k=7, steps=7, adaptive=False, dt=0.01, probes=2, current=1.0, field=0.1),
+        dict(dev="bar", k=9, steps=8, adaptive=False, dt=0.011, probes=3, current=1.0, field=0.1, exact_times=True),
         # history: second solve() on the same TDGLSolver object (fixed and adaptive step)
         dict(dev="bar", k=3, steps=8, adaptive=False, dt=2.0 ** -6, probes=2, current=2.0, field=0.2, second_solve=True),
         dict(dev="bar", k=2, steps=7, adaptive=True, dt=2.0 ** -6, dt_max=0.1, probes=3, current=3.0, field=0.3, skip=3, second_solve=True),
@@ -82,6 +90,15 @@ def natural_run(tdgl, p, base_tmp=None):
         fname = [f for f, m in FILEMAP.items() if m == n][0]
         (sandbox / fname).write_bytes(FOREIGN_BYTES)
     dev = devices.make(tdgl, p["dev"], probes=p.get("probes", 2))
+    if p.get("probe_order") and dev.probe_points is not None:
+        # the same device and mesh with the probe points listed in another order (reversed / rotated): row p of the
+        # per-step probe records belongs to the p-th probe point the user listed, whatever the mesh numbering is
+        pts = [tuple(map(float, q)) for q in np.asarray(dev.probe_points)]
+        pts = pts[::-1] if p["probe_order"] == "reversed" else pts[1:] + pts[:1]
+        d2 = tdgl.Device(dev.name, layer=dev.layer, film=dev.film, holes=list(dev.holes), terminals=list(dev.terminals),
+                         probe_points=pts, length_units=dev.length_units)
+        d2.mesh = dev.mesh
+        dev = d2
     dt = p["dt"]
     # solve_time is placed strictly between two step times so the abstraction of the stop
     # rule cannot depend on rounding: steps*dt - dt/2 for fixed steps, a plain value otherwise
@@ -131,7 +148,14 @@ def natural_run(tdgl, p, base_tmp=None):
         r = orig_sfps.__func__(*args, **kw2)
         evals.append((float(kw2["dt"]) if "dt" in kw2 else None, r is not None))
         return r
-    probe_idx = dev.probe_point_indices
+    # the mesh site of every probe point, in the order the user listed them, from the numbers passed in (not from
+    # Device.probe_point_indices): nearest site to the probe coordinate in units of the requested coherence length
+    if dev.probe_points is None:
+        probe_idx = None
+    else:
+        _xi = float(dev.layer.coherence_length)
+        _sites = np.asarray(dev.mesh.sites, dtype=float)
+        probe_idx = [int(np.argmin(((_sites - np.asarray(q, dtype=float) / _xi) ** 2).sum(axis=1))) for q in np.asarray(dev.probe_points)]
 
     def t_index(t, stage):
         for j, c in enumerate(cum[stage]):
